@@ -173,7 +173,7 @@ class FakeSocket:
 
     def _record_tx(self, data: bytes) -> None:
         self.tx.append((self.world.clock.now, self.world.fsm_of(self), data))
-        self.world.event('tx', self.index, len(data))
+        self.world.event('tx', self.index, len(data), data[18] if len(data) > 18 else None)
 
     def tx_bytes(self) -> bytes:
         return b''.join(d for _, _, d in self.tx)
